@@ -32,12 +32,12 @@ def candidates(F, relfile):
         if f.relfile != relfile or f.body is None:
             continue
         for x in f.nodes():
-            if x["k"] != "bin" or "span" not in x or x["op"] not in ("+", "*", "==", "!=", "<", ">", "<=", ">="):
+            if x["k"] != "bin" or "span" not in x or x.get("src_op", x["op"]) not in ("+", "*", "==", "!=", "<", ">", "<=", ">="):
                 continue
             a, b = x["c"]
             if not (arith(a) and arith(b)):
                 continue
-            seen[tuple(x["span"])] = x["op"]
+            seen[tuple(x["span"])] = x.get("src_op", x["op"])
     # innermost first, non-overlapping
     out = []
     for sp, op in sorted(seen.items(), key=lambda kv: kv[0][3] - kv[0][0]):
